@@ -1205,6 +1205,92 @@ fn opt_min<T: PartialOrd>(a: Option<T>, b: Option<T>) -> Option<T> {
     }
 }
 
+/// Verification hook (feature `llg_verif`): the schema IR of two schema documents and of their
+/// intersection, as canonical s-expressions (objects and references print as opaque nodes).
+#[cfg(feature = "llg_verif")]
+pub fn verif_intersect(a: &Value, b: &Value) -> Result<(String, String, Result<String, String>)> {
+    fn hex(b: &[u8]) -> String {
+        let mut s = String::from("x");
+        for c in b {
+            s.push_str(&format!("{c:02x}"));
+        }
+        s
+    }
+    fn num(x: f64) -> String {
+        let s = format!("{}", x.abs());
+        let (ip, fp) = s.split_once('.').unwrap_or((&s, ""));
+        let all = format!("{ip}{fp}");
+        let mut digits = all.trim_start_matches('0').to_string();
+        let mut exp = -(fp.len() as i64);
+        if digits.is_empty() {
+            return "0".to_string();
+        }
+        while digits.ends_with('0') {
+            digits.pop();
+            exp += 1;
+        }
+        format!("{}{}e{}", if x < 0.0 { "-" } else { "" }, digits, exp)
+    }
+    fn opt<T>(o: &Option<T>, f: impl Fn(&T) -> String) -> String {
+        match o {
+            Some(x) => f(x),
+            None => "_".to_string(),
+        }
+    }
+    fn rx(r: &RegexAst) -> String {
+        match r {
+            RegexAst::Literal(s) => format!("(lit {})", hex(s.as_bytes())),
+            RegexAst::And(v) if v.len() == 2 => format!("(and {} {})", rx(&v[0]), rx(&v[1])),
+            other => format!("(atom {})", hex(format!("{other:?}").as_bytes())),
+        }
+    }
+    fn list(v: &[Schema]) -> String {
+        v.iter().map(dump).collect::<Vec<_>>().join(" ")
+    }
+    fn dump(s: &Schema) -> String {
+        match s {
+            Schema::Any => "any".to_string(),
+            Schema::Unsatisfiable(_) => "unsat".to_string(),
+            Schema::Null => "null".to_string(),
+            Schema::Boolean(b) => format!("(bool {})", opt(b, |b| (*b as u8).to_string())),
+            Schema::Number(n) => format!(
+                "(num {} {} {} {} {} {})",
+                opt(&n.minimum, |x| num(*x)),
+                opt(&n.maximum, |x| num(*x)),
+                opt(&n.exclusive_minimum, |x| num(*x)),
+                opt(&n.exclusive_maximum, |x| num(*x)),
+                n.integer as u8,
+                opt(&n.multiple_of, |d| format!("{}e-{}", d.coef, d.exp))
+            ),
+            Schema::String(t) => format!(
+                "(str {} {} {})",
+                t.min_length,
+                opt(&t.max_length, |x| x.to_string()),
+                opt(&t.regex, rx)
+            ),
+            Schema::Array(a) => format!(
+                "(arr {} {} ({}) {})",
+                a.min_items,
+                opt(&a.max_items, |x| x.to_string()),
+                list(&a.prefix_items),
+                opt(&a.items, |x| dump(x))
+            ),
+            Schema::AnyOf(v) => format!("(anyof {})", list(v)),
+            Schema::OneOf(v) => format!("(oneof {})", list(v)),
+            Schema::Object(_) => "(object)".to_string(),
+            Schema::Ref(_) => "(ref)".to_string(),
+        }
+    }
+    let pre_ctx = PreContext::new(serde_json::json!({}), None)?;
+    let ctx = Context::new(&pre_ctx)?;
+    let sa = compile_contents(&ctx, a)?;
+    let sb = compile_contents(&ctx, b)?;
+    let da = dump(&sa);
+    let db = dump(&sb);
+    let r = sa.intersect(sb, &ctx, 0);
+    Ok((da, db, r.map(|r| dump(&r)).map_err(|e| e.to_string())))
+}
+
 #[cfg(all(test, feature = "referencing"))]
 mod test_retriever {
     use crate::json::{Retrieve, RetrieveWrapper};
